@@ -29,6 +29,8 @@ def norm_res(res):
     out = [r]
     for k in ("snap", "str", "items", "modules"):
         if k in res:
+            if k == "str" and res.get("cls") != "LayeredArchitecture":
+                continue  # str(rule) is not a verdict (default repr / changes after alias expansion)
             out.append(res[k])
     return out
 
